@@ -8,6 +8,8 @@ mod client;
 mod link_conditioner;
 #[cfg(feature = "server")]
 mod server;
+#[cfg(feature = "verif_sim_net")]
+pub mod sim_net;
 mod tcp;
 
 #[cfg(feature = "client")]
